@@ -1227,6 +1227,33 @@ fn prim_bittest(c: &PrimBit, _ctx: &Ctx) -> Out {
     // the big types agree by construction of the property: same value, same answer
     let big = n2i(&val);
     cmp_v(&mut out, &format!("IBig::bit({shown} as IBig, {})", c.n), catch(|| big.bit(c.n)), want_bit);
+    // PowerOfTwo of the unsigned primitives (trait form; the next power is asked for only where
+    // the type can hold it — beyond that the primitive's own overflow behaviour applies)
+    if !c.signed {
+        let mag = val.magnitude().clone();
+        let want_is = !mag.is_zero() && (&mag & (&mag - BigUint::one())).is_zero();
+        let want_next: BigUint = if mag.is_zero() { BigUint::one() } else { BigUint::one() << ((&mag - BigUint::one()).bits() as usize) };
+        let fits = want_next.bits() <= bits as u64;
+        macro_rules! pot {
+            ($t:ty) => {{
+                let x = c.v as $t;
+                (catch(|| PowerOfTwo::is_power_of_two(&x)), if fits { Some(catch(|| BigUint::from(PowerOfTwo::next_power_of_two(x)))) } else { None })
+            }};
+        }
+        let (is, next) = match c.width {
+            0 => pot!(u8),
+            1 => pot!(u16),
+            2 => pot!(u32),
+            3 => pot!(u64),
+            4 => pot!(u128),
+            _ => pot!(usize),
+        };
+        cmp_v(&mut out, &format!("PowerOfTwo::is_power_of_two({shown})"), is, want_is);
+        if let Some(next) = next {
+            cmp_v(&mut out, &format!("PowerOfTwo::next_power_of_two({shown})"), next, want_next.clone());
+            cmp_v(&mut out, &format!("UBig::next_power_of_two({shown} as UBig)"), catch(|| u2n(&n2u(&mag).next_power_of_two())), want_next);
+        }
+    }
     out
 }
 
